@@ -1,10 +1,20 @@
 import XsVerif.Props.C01
-open XsVerif.Props.C01
-#print axioms oracle_decides_language
-#print axioms oracle_decides_open_content
-#print axioms rejected_reports_error
-#print axioms visitor_counterexample_greedy_split
-#print axioms visitor_counterexample_choice_excess
-#print axioms visitor_counterexample_emptiable_repeat
-#print axioms error_index_in_range
-#print axioms accepted_children_admitted
+import XsVerif.Props.C01Exact
+#print axioms XsVerif.Props.C01.oracle_decides_language
+#print axioms XsVerif.Props.C01.oracle_decides_open_content
+#print axioms XsVerif.Props.C01.rejected_reports_error
+#print axioms XsVerif.Props.C01.visitor_counterexample_greedy_split
+#print axioms XsVerif.Props.C01.visitor_counterexample_choice_excess
+#print axioms XsVerif.Props.C01.visitor_counterexample_emptiable_repeat
+#print axioms XsVerif.Props.C01.error_index_in_range
+#print axioms XsVerif.Props.C01.accepted_children_admitted
+#print axioms XsVerif.Props.C01Exact.visitor_exact_flat_sequence
+#print axioms XsVerif.Props.C01Exact.visitor_exact_flat_sequence_lang
+#print axioms XsVerif.Props.C01Exact.visitor_fuel_sufficient_flat_sequence
+#print axioms XsVerif.Props.C01Exact.flat_sequence_counterexample_group_max
+#print axioms XsVerif.Props.C01Exact.flat_sequence_counterexample_group_min
+#print axioms XsVerif.Props.C01Exact.flat_choice_counterexample_group_min
+#print axioms XsVerif.Props.C01Exact.flat_choice_counterexample_gap
+#print axioms XsVerif.Props.C01Exact.strict_encode_complete
+#print axioms XsVerif.Props.C01Exact.encodeSilent_eq_verdict
+#print axioms XsVerif.Props.C01Exact.encode_exact_flat_sequence
